@@ -808,25 +808,50 @@ class Executor:
             PIPE = real_subprocess.PIPE
 
             @staticmethod
-            def run(cmd, **kw):
+            def run(cmd, *pa, **kw):
+                """In-process model of the `git` peer (SimGit): `git check-ignore [-q] [-z] [--stdin] [paths…]`
+                answered from the scenario's model ignore set, with git's exit codes and output format."""
                 k = gitcalls["n"]
                 gitcalls["n"] += 1
-                path = cmd[-1]
+                cmd = [os.fspath(c) for c in cmd]
                 fault = (git or {}).get("fault")
+                textmode = bool(kw.get("text") or kw.get("universal_newlines") or kw.get("encoding"))
+
+                def result(rc, out="", err=""):
+                    class R:
+                        returncode = rc
+                        stdout = out if textmode else out.encode()
+                        stderr = err if textmode else err.encode()
+                        args = cmd
+                    if kw.get("check") and rc != 0:
+                        raise real_subprocess.CalledProcessError(rc, cmd, R.stdout, R.stderr)
+                    return R()
                 if fault and fault.get("call") == k:
-                    ex.ev("git", ex.relpath(path), fault["kind"])
+                    ex.ev("git", [ex.relpath(c) for c in cmd[2:]], fault["kind"])
                     if fault["kind"] == "missing":
                         raise FileNotFoundError(2, "No such file or directory: 'git'")
-                    rc = 128
-                else:
-                    rc = 0 if ex.git_ignored(path, git) else 1
-                    ex.ev("git", ex.relpath(path), rc)
-
-                class R:
-                    returncode = rc
-                    stdout = b""
-                    stderr = b""
-                return R()
+                    return result(128, "", "fatal: simulated git failure\n")
+                if len(cmd) < 2 or os.path.basename(cmd[0]) != "git" or cmd[1] != "check-ignore":
+                    ex.ev("git", [ex.relpath(c) for c in cmd[1:]], "unsupported")
+                    return result(128, "", "fatal: not a git repository (nsim SimGit models check-ignore only)\n")
+                flags = [a for a in cmd[2:] if a.startswith("-") and a != "--"]
+                paths = [a for a in cmd[2:] if not a.startswith("-")]
+                z = "-z" in flags
+                if "--stdin" in flags:
+                    data = kw.get("input")
+                    if isinstance(data, bytes):
+                        data = data.decode("utf-8", "surrogateescape")
+                    data = data or ""
+                    paths = [x for x in data.split("\0" if z else "\n") if x]
+                if not paths:
+                    return result(128, "", "fatal: no path specified\n")
+                ign = [x for x in paths if ex.git_ignored(x, git)]
+                rc = 0 if ign else 1
+                ex.ev("git", [ex.relpath(x) for x in paths], rc)
+                out = ""
+                if "-q" not in flags and "--quiet" not in flags:
+                    out = "".join((x + "\0") if z else (git_quote(x) + "\n") for x in ign)
+                return result(rc, out)
 
             def __getattr__(self, a):
                 return getattr(real_subprocess, a)
@@ -926,6 +951,30 @@ class Executor:
             if rel == ig or rel.startswith(ig.rstrip("/") + "/"):
                 return True
         return False
+
+
+def git_quote(path):
+    """git's core.quotePath output quoting (default on): control bytes, `"`, `\\` and bytes >= 0x80 make the
+    path be printed C-quoted with octal escapes."""
+    b = path.encode("utf-8", "surrogateescape")
+    need = any(c < 0x20 or c >= 0x7f or c in (0x22, 0x5c) for c in b)
+    if not need:
+        return path
+    out = []
+    for c in b:
+        if c == 0x22:
+            out.append('\\"')
+        elif c == 0x5c:
+            out.append("\\\\")
+        elif c == 0x0a:
+            out.append("\\n")
+        elif c == 0x09:
+            out.append("\\t")
+        elif c < 0x20 or c >= 0x7f:
+            out.append("\\%03o" % c)
+        else:
+            out.append(chr(c))
+    return '"' + "".join(out) + '"'
 
 
 def nlines(data):
